@@ -45,10 +45,17 @@ def trees(ctx):
     import EoN
     for k in range(ctx.scale(60, 300)):
         n = ctx.rng.randint(2, ctx.scale(5, 6))
+        # node names: integers, permuted integers or strings; insertion order independent of the names
+        labkind = ["int", "perm", "str"][k % 3]
+        names = list(range(n))
+        if labkind == "perm":
+            ctx.rng.shuffle(names)
+        elif labkind == "str":
+            names = ["n%d" % ((7 * i + 3) % 11) for i in range(n)]
         G = nx.Graph()
-        G.add_nodes_from(range(n))
+        G.add_nodes_from(names)
         for i in range(1, n):
-            G.add_edge(ctx.rng.randrange(i), i)
+            G.add_edge(names[ctx.rng.randrange(i)], names[i])
         weighted = ctx.rng.random() < 0.65
         kw = {}
         if weighted:
@@ -63,7 +70,15 @@ def trees(ctx):
         recs = ctx.rng.sample(rest, 1) if (rest and ctx.rng.random() < 0.3) else []
         tau, gamma = ctx.rng.choice([(1.0, 1.0), (2.0, 0.5), (0.5, 1.0)])
         times = np.linspace(0, 3, 7)
+        # caller-supplied nodelist: absent, graph order, or an arbitrary order of the same nodes
+        nlkind = ["none", "shuffled", "graph", "shuffled"][(k // 3) % 4]
+        if nlkind == "shuffled":
+            kw["nodelist"] = ctx.rng.sample(nodes, len(nodes))
+        elif nlkind == "graph":
+            kw["nodelist"] = list(nodes)
+        ctx.count("trees:labels=%s,nodelist=%s" % (labkind, nlkind))
         rep = dict(entry="SIR_pair_based_pure_IC", stream="tree-exactness", n=n, edges=list(map(list, G.edges())), weighted=weighted,
+                   nodelist=kw.get("nodelist"),
                    weights=dict(edge=[G.edges[e].get("w") for e in G.edges()], node=[G.nodes[u].get("r") for u in G]),
                    infs=infs, recs=recs, tau=tau, gamma=gamma)
         ctx.case(rep, nontrivial=n > 2, sample=rep)
